@@ -162,6 +162,27 @@ def gen_C19(g, tier):
             if kind == 'e': xs[1] = abs(xs[1])
             items.append(kind + ' ' + ' '.join(dhex(x) for x in xs))
         cs.append(Case('o.c19.multi %d %d %d %s' % (k, g.randint(0, 4), g.choice([0, 0, 1, 2, 3, 4, 6, 8, 9, 15]), ' '.join(items)), 'orc', 'several-values-one-stream', check=multi_ok))
+    # a failed stream stays failed, and extraction from a failed stream changes nothing
+    def est_txt(bracket=True):
+        t = '%s+-%s' % (fmt(g.choice([1.0, -2.5, 3.0, g.r.uniform(-10, 10)])), fmt(g.choice([0.5, 0.25, 2.0, g.r.uniform(0.1, 3)])))
+        return '(' + t + ')' if bracket else t
+    for _ in range(max(6, n // 4)):
+        good = [est_txt(g.random() < 0.5) for _ in range(3)]
+        broken = g.choice(['(1+-0.5', '(1+-', '(1+0.5)', '1+0.5', '(1-+0.5)', '(+-0.5)', 'x', '(1+-0.5]', '(1 +- 0.5 2', '1+-x'])
+        sep = g.choice([' ', '\n', '\t', '  '])
+        cs.append(Case('o.c19.afterfail pair %s' % enc(broken + sep + good[0]), 'orc', 'second-extraction-after-a-failed-one'))
+        cs.append(Case('o.c19.afterfail pair %s' % enc(good[0] + sep + good[1]), 'orc', 'second-extraction-after-a-good-one'))
+        cs.append(Case('o.c19.afterfail pre %s' % enc(g.choice([good[0], '(1,2)', '(1,2,3,4)', '1', 'Linear', good[0] + sep + good[1], '((1+-1),(2+-1))'])), 'orc', 'extraction-from-a-failed-stream'))
+        # a container of estimates with one malformed element that is followed by well-formed text
+        for kind, nel in (('vec3', 3), ('stokes', 4)):
+            els = ['(' + est_txt(False) + ')' for _ in range(nel)]
+            k = g.randint(0, nel - 2); how = g.choice([0, 1, 2])
+            if how == 0: els[k] = els[k][:-1] + ' ' + est_txt(False)          # closing bracket missing, an unbracketed estimate follows
+            elif how == 1: els[k] = els[k].replace('+-', '+7+-', 1)            # a stray term before the error
+            else: els[k] = els[k][:-1]                                          # closing bracket missing
+            text = '(' + ','.join(els) + ')'
+            if how == 0: text = '(' + ','.join(els[:k + 1]) + ' ' + ','.join(els[k + 1:]) + ')' if g.random() < 0.5 else text
+            cs.append(Case('o.c19.afterfail %s %s' % (kind, enc(text)), 'orc', 'container-with-one-malformed-element'))
     # round trips
     for _ in range(n):
         v, var = value(g), variance(g)
